@@ -508,6 +508,12 @@ def c18(tier, rep):
             is_try = mac.startswith("try")
             q = fp.build(mac, ds, flavour="Res" if is_try else None, handler=("map" if is_try else "then"), hpos=len(ds), rich=(len(ds) <= 2))
             hp.append(fp.to_prog("h/%s/%s" % (mac, fp.pname(ds)), q, [[0]] if is_try else fp.offset_rows()))
+            if sum(ds) <= 3:
+                # the handler OPERAND has a visible evaluation of its own (a block / factory call): it panics too, with every subset
+                # of failing branches (a failing branch must not swallow the panic of an expression that is evaluated regardless)
+                for hk in (("map", "and_then") if is_try else ("then",)):
+                    q = fp.build(mac, ds, flavour="Res" if is_try else None, handler=hk, hexpr_ev=True)
+                    hp.append(fp.to_prog("hx/%s/%s/%s" % (mac, fp.pname(ds), hk), q, [[0]], sub=fp.fail_slots(ds) if is_try else ()))
     fr3 = e2.run_family("c18profiles", sweep(pp + hp), extra_header=fp.HEADER)
     judge_family(rep, fr3)
     rep.set("panic_sweep_programs", len(cp) + len(wp) + len(pp) + len(hp))
